@@ -37,6 +37,7 @@ class FnResult:
         self.time_ms = 0
         self.rlimit_hit = False
         self.src = None       # (rel, line)
+        self.mode = ""        # exec | proof | spec (from Verus' function breakdown)
 
 
 class UnitResult:
@@ -139,11 +140,9 @@ def _run_unit_once(unit_path, repo_root="/repo", rlimit=None, extra_args=(), tag
             for fb in mod.get("function-breakdown", []):
                 nm = fb["function"].split("::", 1)[-1]
                 res.smt_ms += fb.get("time", 0)
-                if nm in res.fn:
-                    res.fn[nm].time_ms += fb.get("time", 0)
-                else:
-                    fr = res.fn.setdefault(nm, FnResult(nm))
-                    fr.time_ms += fb.get("time", 0)
+                fr = res.fn.setdefault(nm, FnResult(nm))
+                fr.time_ms += fb.get("time", 0)
+                fr.mode = fb.get("mode:", fb.get("mode", "")) or fr.mode
     except Exception:
         pass
     if vr.get("encountered-vir-error") or (vr.get("encountered-error") and res.errors == 0 and res.verified == 0):
